@@ -198,6 +198,9 @@ pub struct Machine {
     /// Set when an `asm!` site or operand form was reached that the table
     /// below does not know. The runner reports such a harness as UNDECIDED.
     pub unknown_asm_hit: bool,
+    /// Instruction kind that must not execute (see [`set_trap`]);
+    /// `Kind::None` (the state after every reset) = no trap.
+    pub trap: Kind,
 }
 
 impl Machine {
@@ -246,6 +249,7 @@ impl Machine {
             log_len: 0,
             log_overflow: false,
             unknown_asm_hit: false,
+            trap: Kind::None,
         }
     }
 
@@ -461,19 +465,18 @@ impl Machine {
     }
 }
 
-/// Instruction kind that must not execute (see [`set_trap`]).
-pub static mut TRAP_KIND: Kind = Kind::None;
-
 /// Arm the write trap: from now on, executing an instruction of this kind
 /// reaches [`trap_hit`]. Used by "rejected WITHOUT WRITING" harnesses, which
 /// run under `#[kani::should_panic]` and therefore cannot look at the log
 /// after the panic: under Kani `trap_hit` is a check of class `unreachable`
 /// (not `assertion`), so a should_panic harness in which the trapped
 /// instruction executes on any path FAILS ("failures other than panics").
-/// `Kind::None` disarms. Not reset by `reset_symbolic()`.
+/// `Kind::None` disarms. The trap lives in [`Machine::trap`] (not in a
+/// separate static: Kani havocs `static mut`s in `proof_for_contract`
+/// harnesses), so `reset_symbolic()` / `reset_zeroed()` disarm it: arm it
+/// AFTER the reset.
 pub fn set_trap(kind: Kind) {
-    // SAFETY: single threaded.
-    unsafe { *core::ptr::addr_of_mut!(TRAP_KIND) = kind };
+    m().trap = kind;
 }
 
 /// Reached when the trapped instruction kind executes.
@@ -717,13 +720,11 @@ pub fn begin_block_regs() {
 
 /// Append an event to the log.
 pub fn log(kind: Kind, a: u64, b: u64, c: u64) {
+    let mm = m();
     // write trap (see `set_trap`); never taken unless a harness armed it
-    // SAFETY: single threaded.
-    let trap = unsafe { *core::ptr::addr_of!(TRAP_KIND) };
-    if trap != Kind::None && trap == kind {
+    if mm.trap != Kind::None && mm.trap == kind {
         trap_hit();
     }
-    let mm = m();
     if mm.log_len < LOG_CAP {
         let i = mm.log_len;
         mm.log[i] = Event {
